@@ -5,6 +5,7 @@ import (
 	"os"
 	"runtime/debug"
 	"strings"
+	"sync/atomic"
 	"testing"
 	"testing/synctest"
 	"time"
@@ -28,6 +29,7 @@ type RunResult struct {
 	WallMs     int64        `json:"wall_ms"`
 	Error      string       `json:"error,omitempty"`
 	Nontrivial bool         `json:"nontrivial"`
+	Aborted    bool         `json:"aborted,omitempty"` // stopped by the wall-clock guard (results up to that point stand; not replayable as a whole)
 	FaultsHit  int          `json:"faults_hit"`
 }
 
@@ -56,6 +58,18 @@ func workdirRoot() string {
 func runOne(t *testing.T, spec *runSpec) (res *RunResult) {
 	start := time.Now()
 	res = &RunResult{Property: spec.Property, Seed: spec.Seed}
+	// wall-clock guard (real time, outside the bubble): a pathological run must
+	// not hold up a whole batch
+	abortRun.Store(false)
+	stopGuard := make(chan struct{})
+	defer close(stopGuard)
+	go func() {
+		select {
+		case <-time.After(runWallLimit()):
+			abortRun.Store(true)
+		case <-stopGuard:
+		}
+	}()
 	prof := profiles[spec.Property]
 	if prof == nil {
 		res.Error = "unknown property " + spec.Property
@@ -87,6 +101,7 @@ func runOne(t *testing.T, spec *runSpec) (res *RunResult) {
 
 		res.Violations = c.violations
 		res.Stats = c.stats
+		res.Aborted = abortRun.Load()
 		res.Stats.SimMillis = time.Since(c.start).Milliseconds()
 		res.TraceHash = c.trace.sum()
 		res.TracePer = c.trace.per
@@ -195,6 +210,13 @@ func (c *Cluster) drive(spec *runSpec) {
 			c.stats.probe("run-capped-undetermined")
 			return
 		}
+		if abortRun.Load() {
+			c.stats.probe("run-aborted-wall-clock")
+			return
+		}
+	}
+	if abortRun.Load() {
+		return
 	}
 	if c.cfg.FairSuffix {
 		c.fairSuffix(spec)
@@ -431,4 +453,15 @@ func (c *Cluster) probeFameLag() {
 			break
 		}
 	}
+}
+
+var abortRun atomic.Bool
+
+func runWallLimit() time.Duration {
+	if v := os.Getenv("SIM_RUN_WALL"); v != "" {
+		if d, err := time.ParseDuration(v); err == nil {
+			return d
+		}
+	}
+	return 100 * time.Second
 }
